@@ -34,6 +34,10 @@ func check(c arith.Case, st *core.Stats) error {
 		st.Class("outside-quantifier")
 		return nil
 	}
+	if c.Op == "quantize" && o.Res&(apd.Underflow|apd.Overflow|apd.SystemUnderflow|apd.SystemOverflow) != 0 {
+		// also at the package limits: what Quantize cannot do it rejects as InvalidOperation
+		return fmt.Errorf("%v: raised %s (err=%v); Quantize never raises Underflow or Overflow (result %s)", c, core.FlagStr(o.Res), o.Err, core.Show(o.D))
+	}
 	if o.Err != nil {
 		if e.Limit {
 			st.Class("limit-class-error")
